@@ -29,6 +29,10 @@ def main():
                 info["temp"].flush()
             except Exception:
                 pass
+        if label == "build.mkstemp" and os.environ.get("CHAMELEON_CACHE"):
+            if os.path.dirname(os.path.abspath(info["temp"])) != os.path.abspath(os.environ["CHAMELEON_CACHE"]):
+                print(json.dumps({"exc": "TEMPORARY-FILE-OUTSIDE-THE-CACHE-DIRECTORY %s" % info["temp"]}), flush=True)
+                os._exit(3)
         if crash_at and label == crash_at:
             os._exit(77)
         if sync and label in LABELS:
@@ -53,6 +57,10 @@ def main():
         resource.setrlimit(resource.RLIMIT_FSIZE, (job["fsize_limit"], job["fsize_limit"]))
     for case in job["cases"]:
         opts = dict(case.get("options", {}))
+        xbv = opts.pop("_xbv", None)
+        if xbv:
+            # the same builtin NAMES with other values: one cache entry may serve both, each object with its own values
+            opts["extra_builtins"] = {"site": xbv, "shout": (str.upper if xbv == "alpha" else str.lower)}
         xb = opts.pop("_xb", None)
         if xb:
             opts["extra_builtins"] = {n: n.upper() for n in xb.split("|")}
